@@ -32,37 +32,49 @@ func runC19(c *an.Ctx) {
 	mustFunc(c, ct+".(*Transaction).decodeEip155")
 	mustFunc(c, ct+".TransactionFromRawBytes")
 	mustFunc(c, ct+".(*Transaction).deserializeOntUnsigned")
-	// the format probe reads two bytes and must give them back on every path that goes on decoding
-	if peek := mustFunc(c, ct+".isEip155TxBytes"); peek != nil {
+	// the format probe (a helper such as isEip155TxBytes, or the same two-byte peek written in place) reads bytes
+	// before the start position is taken and must give them back on every path that goes on decoding: from a
+	// successful probe read, neither the start-position call nor the EIP-155 decoder is reachable without passing a
+	// BackUp of the amount read
+	probeReads := map[ssa.Instruction]bool{}
+	{
 		nb := mustObj(c, "common.(*ZeroCopySource).NextBytes")
 		bu := mustObj(c, "common.(*ZeroCopySource).BackUp")
-		if nb != nil && bu != nil {
-			reads, backs := an.CallsToReach(peek, nb), callsIn(peek, bu)
-			ok := len(reads) == 1 && len(backs) >= 1
-			why := fmt.Sprintf("%d reads, %d BackUp calls", len(reads), len(backs))
-			if ok {
-				// same amount, and no return after a successful read without backing up
-				for _, b := range backs {
-					if an.AccessPath(argsNoRecv(b.(ssa.CallInstruction).Common())[0]) != an.AccessPath(argsNoRecv(reads[0].Common())[0]) {
-						ok, why = false, "BackUp amount differs from the amount read"
-					}
+		posObj := mustObj(c, "common.(*ZeroCopySource).Pos")
+		dec := mustObj(c, ct+".(*Transaction).decodeEip155")
+		if nb != nil && bu != nil && posObj != nil && dec != nil {
+			poss := an.CallsTo(deser, posObj)
+			var targets []ssa.Instruction
+			if len(poss) > 0 {
+				targets = append(targets, poss[0])
+			}
+			targets = append(targets, callsIn(deser, dec)...)
+			ok, why, n := true, "", 0
+			for _, rd := range an.CallsToReach(deser, nb) {
+				// a probe read is one from which the start position is still to be taken
+				if len(poss) == 0 || !(&an.Query{Fn: deser, Start: rd}).Run().Reaches(poss[0]) {
+					continue
 				}
+				n++
+				probeReads[rd] = true
 				assume := map[ssa.Value]an.Abs{}
-				for _, e := range an.Extracts(reads[0].Value())[1] {
+				for _, e := range an.Extracts(rd.Value())[1] {
 					assume[e] = an.AFalse
 				}
 				cut := map[ssa.Instruction]bool{}
-				for _, b := range backs {
-					cut[b] = true
+				for _, b := range an.CallsToReach(deser, bu) {
+					if an.AccessPath(argsNoRecv(b.Common())[0]) == an.AccessPath(argsNoRecv(rd.Common())[0]) {
+						cut[b] = true
+					}
 				}
-				r := (&an.Query{Fn: peek, Start: reads[0], Assume: assume, Cut: cut}).Run()
-				for _, ret := range an.Returns(peek) {
-					if r.Reaches(ret) {
-						ok, why = false, "a return is reachable after a successful read without BackUp: "+c.P.Rel(ret.Pos())
+				r := (&an.Query{Fn: deser, Start: rd, Assume: assume, Cut: cut}).Run()
+				for _, tg := range targets {
+					if r.Reaches(tg) {
+						ok, why = false, "decoding goes on at "+c.P.Rel(tg.Pos())+" after the probe read at "+c.P.Rel(rd.Pos())+" without a BackUp of the same amount"
 					}
 				}
 			}
-			c.Check(ok, "pair|isEip155TxBytes|peek-restores-position", "the transaction-format probe gives back the bytes it read, so decoding starts at the transaction's first byte", c.P.Rel(peek.Pos()), why)
+			c.Check(ok && n >= 1, "pair|Transaction.Deserialization|peek-restores-position", "the transaction-format probe gives back the bytes it read, so decoding starts at the transaction's first byte", c.P.Rel(deser.Pos()), fmt.Sprintf("%d probe reads; %s", n, why))
 		}
 	}
 	// (1)
@@ -94,7 +106,12 @@ func runC19(c *an.Ctx) {
 		if len(poss) == 3 {
 			pstart, pos, pend := poss[0], poss[1], poss[2]
 			// pstart before any read
-			reads := callsIn(deser, unsigned, readVarUint, rawSigDeser, nextBytes)
+			var reads []ssa.Instruction
+			for _, rd := range callsIn(deser, unsigned, readVarUint, rawSigDeser, nextBytes) {
+				if !probeReads[rd] {
+					reads = append(reads, rd) // the probe's own read is given back (rule above)
+				}
+			}
 			ok, why := an.MustPass(c.P, deser, []ssa.Instruction{pstart}, reads, map[ssa.Value]an.Abs{})
 			c.Check(ok, "sequence|Transaction.Deserialization|pstart-before-reads", "the start position is taken before anything is read", c.P.Rel(pstart.Pos()), why)
 			// pos after unsigned, before sig section
@@ -196,15 +213,9 @@ func runC19(c *an.Ctx) {
 		}
 	}
 	// (4) size limits
-	maxGuard := func(fn *ssa.Function, constName string) *an.Guard {
-		return &an.Guard{Name: "> " + constName, FailValue: an.ATrue, MatchValue: func(v ssa.Value) bool {
-			b, ok := v.(*ssa.BinOp)
-			if !ok || b.Op != token.GTR {
-				return false
-			}
-			k, isK := b.Y.(*ssa.Const)
-			return isK && k.Value != nil && (constName == "MAX_TX_SIZE" && k.Value.String() == "1048576" || constName == "TX_MAX_SIG_SIZE" && k.Value.String() == "16")
-		}}
+	maxGuard := func(fn *ssa.Function, constName string) []*an.Guard {
+		lim := map[string]string{"MAX_TX_SIZE": "1048576", "TX_MAX_SIG_SIZE": "16"}[constName]
+		return relGuards("> "+constName, token.GTR, func(v ssa.Value) bool { _, isK := v.(*ssa.Const); return !isK }, isConstVal(lim))
 	}
 	isSuccess := func(in ssa.Instruction) bool {
 		r, ok := in.(*ssa.Return)
@@ -228,11 +239,11 @@ func runC19(c *an.Ctx) {
 				}
 			}
 		}
-		v := an.GuardedX(c.P, fn, []*an.Guard{maxGuard(fn, "MAX_TX_SIZE")}, extra, isSuccess, false)
+		v := an.GuardedX(c.P, fn, maxGuard(fn, "MAX_TX_SIZE"), extra, isSuccess, false)
 		c.Check(v.Holds && v.GuardSites == 1, "guard|"+fn.Name()+"|MAX_TX_SIZE", "inputs above the transaction size limit are rejected", c.P.Rel(fn.Pos()), v.Witness)
 	}
 	{
-		v := an.Guarded(c.P, deser, []*an.Guard{maxGuard(deser, "TX_MAX_SIG_SIZE")}, func(in ssa.Instruction) bool { return isCallTo(in, rawSigDeser) }, false)
+		v := an.Guarded(c.P, deser, maxGuard(deser, "TX_MAX_SIG_SIZE"), func(in ssa.Instruction) bool { return isCallTo(in, rawSigDeser) }, false)
 		c.Check(v.Holds && v.GuardSites == 1, "guard|Deserialization|TX_MAX_SIG_SIZE", "no signature set is decoded when the announced count exceeds the limit", c.P.Rel(deser.Pos()), v.Witness)
 	}
 	// (5)
